@@ -21,7 +21,7 @@ CHECKS = [
          text='Proof over all streams x all accepted parameter tuples x 4 modes that token indices are truthful, ordered and non-overlapping: every DELIVER/APPEND obligation is an entailment from an inferred inductive invariant of the loop.',
          note=TOK_NOTE),
     dict(id='C02', engine='E3-tokenizer', level='proof', design_ref='DESIGN.md 3.3.3, 4.2, B.1',
-         technique='static analysis: abstract interpretation + inductive invariants for the length bounds; symbolic evaluation of the constructor and region comparison by mutual entailment; the exception that leaves a rejecting path (incl. a message template asking for more arguments than it is given)',
+         technique='static analysis: abstract interpretation + inductive invariants for the length bounds; symbolic evaluation of the constructor and region comparison by mutual entailment; the exception that leaves a rejecting path (incl. a message template asking for more arguments than it is given); no identity comparison of a parameter with an integer constant',
          text='Proof of the length bounds (<= max_length; short only as ghost-adjacent remainder in non-strict mode) for all streams/parameters, and equality of the constructor accept region with the spec region.',
          note=TOK_NOTE),
     dict(id='C03', engine='E3-tokenizer', level='proof', design_ref='DESIGN.md 3.3.4, 4.3',
@@ -50,11 +50,11 @@ CHECKS += [
          text='Proves one read per iteration, hand-over in the deciding iteration, the latency bound max(K,0)+1 and single end-of-stream read for all states; decides that tokenize modes are thin wrappers and split() is lazy.',
          note=TOK_NOTE),
     dict(id='C10', engine='E5-nullness + E4', level='other', design_ref='DESIGN.md 3.5, 4.10',
-         technique='static analysis: nullness dataflow of read() results over the reader stack, provenance of block/hop/limiter formulas, wrapper nesting on all configuration paths, guard extraction; one inner read per read() call (never in a loop); reported durations as formulas; buffered-open rule for files read as audio',
+         technique='static analysis: nullness dataflow of read() results over the reader stack, provenance of block/hop/limiter formulas, wrapper nesting on all configuration paths, guard extraction; one inner read per read() call (never in a loop); reported durations as formulas; buffered-open rule for files read as audio; the limiter charges its budget after the inner read has returned (effect order on every path)',
          text='Decides that no read() result is dereferenced unguarded in the reader stack, the framing formulas (int(block_dur*rate), hop bytes, min(budget, size), round(max_read*rate)), wrapper nesting and rejections. Concatenation equality is not computed.',
          note=STRUCT_NOTE),
     dict(id='C20', engine='E3-tokenizer + E6-effects', level='other', design_ref='DESIGN.md 4.20',
-         technique='static analysis: taint of per-run tokenizer state from an arbitrary previous state in the abstract interpreter; effect analysis (purity of validators, no module-level mutable state, fresh objects per split, no memoised constructor of a stateful class, close->rewind)',
+         technique='static analysis: taint of per-run tokenizer state from an arbitrary previous state in the abstract interpreter; effect analysis (purity of validators, no module-level mutable state, fresh objects per split, no memoised constructor of a stateful class, the finalisation of the token generator writes no tokenizer state, close->rewind)',
          text='Proves that no decision or delivered value of the tokenizer reads state left by an earlier run (all C01-C04 obligations hold from an arbitrary start), and decides purity / freshness / rewind facts structurally.',
          note=TOK_NOTE),
  ]
@@ -68,11 +68,11 @@ CHECKS += [
          text='Decides that every short alias is read only as fallback of its long name, that split() normalises what it hands down, the container dispatch (stdin/bytes/file x raw/wav x lazy/eager) and the max_read limiter formulas. Equality of region lists across containers is not computed.',
          note=STRUCT_NOTE),
     dict(id='C11', engine='E4-provenance', level='other', design_ref='DESIGN.md 4.11',
-         technique='static analysis: sibling agreement of all read() implementations resolved through the MRO (open-check first, never empty bytes, whole-sample request); buffer source decided operation by operation as Hoare triples over its extracted paths (helpers, property getters/setters inlined), discharged by evaluating path conditions, results and field updates as formulas on finite grids (field stores forwarded to later loads on a path; rewind on open and closed sources); open/close typestate of every source with super() and hooks followed; buffered-open rule; role rule; every field read() writes is re-initialised by open / close / rewind',
+         technique='static analysis: sibling agreement of all read() implementations resolved through the MRO (open-check first, never empty bytes, whole-sample request); buffer source decided operation by operation as Hoare triples over its extracted paths (helpers, property getters/setters inlined), discharged by evaluating path conditions, results and field updates as formulas on finite grids (field stores forwarded to later loads on a path; rewind on open and closed sources); open/close typestate of every source with super() and hooks followed; buffered-open rule; role rule; every field read() writes is re-initialised by open / close / rewind; a rejected position assignment leaves the cursor unchanged (stores of the raising paths)',
          text='Decides per-operation facts for all 5 concrete sources (open test first -> AudioIOError, None-or-non-empty results, size*width*channels requests, cursor arithmetic, position setter/guards, rewind/close). History equivalence as a whole is argued from these facts.',
          note=STRUCT_NOTE),
     dict(id='C16', engine='E4-provenance', level='other', design_ref='DESIGN.md 4.16',
-         technique='static analysis: path enumeration of the three slicing functions with helpers inlined; per path, the extracted bound terms are evaluated as formulas on finite grids (bounds None/negative/out of range, 1-2 byte samples, 1-2 channels; fractional seconds at 8 Hz-44.1 kHz) and compared with Python slice semantics on whole samples; type guards by selecting the path an invalid index takes; __len__ evaluated through its inlined paths incl. float-edge (samples, rate) pairs; time-view bounds that depend on the region length compared as the samples they select on regions of several lengths (sub-sample negative instants included)',
+         technique='static analysis: path enumeration of the three slicing functions with helpers inlined; per path, the extracted bound terms are evaluated as formulas on finite grids (bounds None/negative/out of range, 1-2 byte samples, 1-2 channels; fractional seconds at 8 Hz-44.1 kHz) and compared with Python slice semantics on whole samples; type guards by selecting the path an invalid index takes; __len__ evaluated through its inlined paths incl. float-edge (samples, rate) pairs; time-view bounds that depend on the region length compared as the samples they select on regions of several lengths (sub-sample negative instants included); integer bounds beyond the float range are on the grid and a test that raises at a valid point is a decided raise',
          text='Decides that both byte bounds are sample index x bytes-per-sample with only behaviour-preserving normalisations, the TypeError guards, len, and the int/round conversions of the time views. The float claim "within one sample period" is not decided.',
          note=STRUCT_NOTE),
     dict(id='C17', engine='E4-provenance + E6-effects', level='other', design_ref='DESIGN.md 4.17',
@@ -88,7 +88,7 @@ WORK_NOTE = ("Decides protocol facts of the worker design from the source (messa
              "relying on queue.Queue (unbounded FIFO, thread-safe, put never blocks) and Thread.join semantics. Interleavings and crash points are NOT enumerated.")
 CHECKS += [
     dict(id='C12', engine='E3-fd traces', level='other', design_ref='DESIGN.md 4.12, B.6',
-         technique='static analysis: finite-domain path enumeration of the worker loops (message in {NONE, STOP, DATA}), inbox discipline census, call-order rules, class-table exhaustiveness; kind of the stop-marker value; provenance of the keywords handed to split(); numbering of detections; the detections view; no truth-value filter on the forwarded options; no re-use of formatted text as a format template in an observer handler',
+         technique='static analysis: finite-domain path enumeration of the worker loops (message in {NONE, STOP, DATA}), inbox discipline census, call-order rules, class-table exhaustiveness; kind of the stop-marker value; provenance of the keywords handed to split(); numbering of detections; the detections view; no truth-value filter on the forwarded options; no re-use of formatted text as a format template in an observer handler; the worker keeps the very list of observers it was given',
          text='Decides the ten protocol facts F1-F10 (unbounded own inbox, timeout on every blocking get, loop cases, notify-all once per detection then STOP, stop=send then join, no self-join, every worker has the hook). Schedules are not explored.',
          note=WORK_NOTE),
     dict(id='C19', engine='E9-typestate + E4-provenance + E6-effects', level='other', design_ref='DESIGN.md 4.19, 10.5e',
